@@ -36,6 +36,7 @@ def check(run):
         run.guard("C06.4.batch-incremental", cfg, lambda: rule_routing(run, F, cfg))
         run.guard("C06.5.serialize-readonly", cfg, lambda: rule_serialize(run, F, cfg))
         run.guard("C06.4.batch-incremental", cfg + "/exists", lambda: rule_exists_identity(run, F, cfg))
+        run.guard("C06.4.batch-incremental", cfg + "/badfilter", lambda: rule_incremental_badfilter(run, F, cfg))
         from . import C05 as _C05, C07 as _C07   # lazy imports (C07 borrows nothing from here)
         b5 = run.borrow("C05", why="which lists are optimised must not depend on how the engine was built")
         run.guard("C06.via.C05.3.what-is-optimised", cfg, lambda: _C05.rule_what(b5, F, cfg))
@@ -393,3 +394,26 @@ def rule_exists_identity(run, F, cfg):
            "NetworkFilterList::filter_exists answers true only for a stored rule (an element of a bucket of self.filter_map) "
            f"whose id equals the id of the rule asked about; other `true` answers: {bad[:2]}",
            site=bad[0][0] if bad else f.loc(0), config=cfg)
+
+
+
+def rule_incremental_badfilter(run, F, cfg):
+    """A batch cancels every rule whose id equals the id of a `$badfilter` rule of the same batch. For the one-at-a-time
+    engine to equal the batch engine, `Blocker::add_filter` has to test the rule it is given against the ids of the
+    `$badfilter` rules loaded earlier -- which requires that the Blocker keeps that id set after construction. Decided
+    structurally: add_filter (or something it calls) looks the new rule's `get_id()` up in a collection stored in
+    `self`. (Adding a `$badfilter` rule itself is refused with an error, which is visible to the caller.)"""
+    f = F.fn("blocker::Blocker::add_filter")
+    run.touched(f)
+    cone = [f] + list(F.closures_of(f.name))
+    hit = []
+    for g in cone:
+        for b, t in g.calls(r"(HashSet|HashMap|BTreeSet)::contains(_key)?$|slice::contains$|binary_search"):
+            e = g.expr_call(t)
+            if re.search(r"(arg|up):self[\.\w]*", e) and "get_id(" in e:
+                hit.append(g.loc(b))
+    run.ob("C06.4.batch-incremental", "add_filter-honours-earlier-badfilters", bool(hit),
+           "Blocker::add_filter tests the id of the rule it is given against the `$badfilter` ids remembered from the rules "
+           f"loaded before (lookups found: {hit})", site=f.loc(0), config=cfg,
+           detail="Blocker::new([`||a.com^$badfilter`]) followed by add_filter(`||a.com^`) blocks a.com; the same two rules "
+                  "in one batch do not")
